@@ -297,13 +297,14 @@ def run(ctx):
             r3.violation("last-order", "Last ranks: English %d, transliteration %d, emoticon literal %d — the raw English text must be last" % (e_, t_, l_),
                          common.fn_line(prog, gs))
     # user auto-correct entry before the bundled one
-    sc = [k for k, f in prog.fns.items() if f.get("kind") != "Closure" and (f.get("impl") or {}).get("self", "").endswith("PhoneticSuggestion")
-          and f.get("output", "").startswith("std::option::Option<&") and any("user_autocorrect" in repr(x) for x in [prog.body(k).expr_local(0)])]
+    from . import phonetic as _ph
+    lookups = _ph.autocorrect_lookup(prog)
+    sc = [k for (k, b_, e_) in lookups]
     if len(sc) != 1:
         r3.undecidable("user-first", "the auto-correct look-up (Option<&str> built from the user map) was not found uniquely: %s" % sc)
     else:
-        scb = prog.body(sc[0])
-        ret = strip_refs(scb.expr_local(0))
+        scb = lookups[0][1]
+        ret = strip_refs(lookups[0][2])
         good = False
         if ret.k == "call" and (ret.a[0].endswith("::or_else") or ret.a[0].endswith("::or")):
             first, second = ret.a[1][0], ret.a[1][1]
@@ -444,7 +445,8 @@ def classify_source(prog, p):
                 return "emoji"
             if contains_call(recv, lambda n: n.endswith("get_words_for")):
                 return "dictionary"
-    if contains_call(item, lambda n: n.endswith("search_corrected")):
+    from . import phonetic as _ph
+    if _ph.is_autocorrect_value(prog, item):
         return "autocorrect"
     if contains_call(item, lambda n: n.endswith("get_words_for")):
         return "dictionary"
